@@ -1,6 +1,192 @@
-import LitexModel.Packet.Num
+import LitexProofs.Packet.Header
+import LitexProofs.Packet.Fifo
+import LitexProofs.Packet.Arbiter
 /-
-  C16 — Packet framing: headers round-trip and packets are never interleaved or torn.   (theorems follow)
+  C16 — Packet framing: headers round-trip and packets are never interleaved or torn.
+
+  Models: `LitexModel/Packet/{Header,Packetizer,Fifo,Arbiter}.lean` (litex/soc/interconnect/packet.py).
+  Every hardware theorem quantifies over `ins`, an arbitrary list of per-cycle inputs: all valid/ready
+  schedules, all data, garbage on the lines while valid = 0, selector changes at any time.
 -/
 namespace Litex.C16
+open Litex Litex.Packet Litex.Stream Litex.Stream.Elem
+
+/-! ## 1. Header: encode / decode -/
+
+/-- **header_roundtrip** (`_partial`: fields are swapped by `reverse_bytes`, which is an involution only on
+    fields of at most 8 bits or a whole number of bytes — hypothesis `hs`).
+    For every field table whose fields do not overlap, with values that fit their fields, with and without
+    `swap_field_bytes`:  `decode (encode vals) = vals`.
+    Full statement (without `hs`) is false, see `header_roundtrip_fails_odd_width`. -/
+theorem header_roundtrip_partial (swap : Bool) (fields : List HField) (vals : List Nat)
+    (hlen : vals.length = fields.length) (hd : pairwiseDisjoint fields = true)
+    (hs : swap = true → ∀ f ∈ fields, f.swappable = true)
+    (hv : ∀ p ∈ fields.zip vals, p.2 < 2 ^ p.1.width) :
+    decode swap fields (encode swap fields vals) = vals :=
+  decode_encode swap fields vals hlen hd hs hv
+
+/-- Without byte swapping the round trip holds for every non-overlapping table (no width restriction). -/
+theorem header_roundtrip_noswap (fields : List HField) (vals : List Nat)
+    (hlen : vals.length = fields.length) (hd : pairwiseDisjoint fields = true)
+    (hv : ∀ p ∈ fields.zip vals, p.2 < 2 ^ p.1.width) :
+    decode false fields (encode false fields vals) = vals :=
+  decode_encode false fields vals hlen hd (by simp) hv
+
+/-- **encode_layout**: field `i` of a non-overlapping table occupies bits `[8·byte+offset, +width)` of the
+    header signal and holds the (swapped) value; nothing else is written there. -/
+theorem encode_layout (swap : Bool) (fields : List HField) (vals : List Nat)
+    (hlen : vals.length = fields.length) (hd : pairwiseDisjoint fields = true)
+    (i : Nat) (hi : i < fields.length) :
+    slice (fields[i]).start (fields[i]).width (encode swap fields vals)
+      = swapField swap (fields[i]).width (vals[i]'(by omega)) :=
+  Litex.Packet.encode_layout swap fields vals hlen hd i hi
+
+/-- A table that fits in `len` bytes encodes into the `8·len`-bit header signal. -/
+theorem encode_fits (swap : Bool) (len : Nat) (fields : List HField) (vals : List Nat)
+    (hf : fitsIn len fields = true) : encode swap fields vals < 2 ^ (8 * len) :=
+  encode_lt swap len fields vals hf
+
+/-- Byte swapping whole bytes is big-endian storage: an involution. -/
+theorem swap_involutive (w x : Nat) (h : w ≤ 8 ∨ w % 8 = 0) : revBytes w (revBytes w x) = x % 2 ^ w := by
+  rcases h with h | h
+  · rw [revBytes_small w x h, revBytes_small w _ h, Nat.mod_mod]
+  · exact revBytes_revBytes w x h
+
+/-- Non-vacuity: the header of `test/test_packet.py` (31 bytes, five fields, swapped) satisfies the hypotheses. -/
+example :
+    let fields : List HField := [⟨15, 0, 128⟩, ⟨1, 0, 16⟩, ⟨3, 0, 32⟩, ⟨7, 0, 64⟩, ⟨0, 0, 8⟩]
+    pairwiseDisjoint fields = true ∧ fitsIn 31 fields = true ∧ (∀ f ∈ fields, f.swappable = true) ∧
+    encode true [⟨0, 0, 8⟩, ⟨1, 0, 16⟩] [0xa1, 0xb2c3] = 0xc3b2a1 ∧
+    decode true [⟨0, 0, 8⟩, ⟨1, 0, 16⟩] 0xc3b2a1 = [0xa1, 0xb2c3] := by decide
+
+/-- Negative witness (finding C16-header-swap-odd-width): a swapped 12-bit field does not round-trip. -/
+theorem header_roundtrip_fails_odd_width :
+    decode true [⟨0, 0, 12⟩] (encode true [⟨0, 0, 12⟩] [0xdef]) = [0xfde] := by decide
+
+/-! ## 2. PacketFIFO -/
+
+/-- **packetfifo_atomic**.  For every input sequence (`pd` = payload depth, `qd` = depth of the param FIFO):
+    * the delivered beats are a prefix of `annT accepted`: the accepted beats in order, data and last
+      unchanged, each carrying the param presented with the *last* beat of its own packet;
+    * the stored beats are exactly the accepted, not yet delivered ones, and the param FIFO holds one entry per
+      *complete* stored packet (so `source.valid`, which is "param FIFO not empty", is raised only while a
+      complete packet is stored, and never on an empty payload FIFO);
+    * the occupancies never exceed the depths. -/
+theorem packetfifo_atomic (pd qd : Nat) (ins : List (In PBeat)) :
+    let e := packetFifo pd qd
+    let s := e.runFrom e.init ins
+    e.delivered e.init ins <+: annT (e.accepted e.init ins) ∧
+    (e.accepted e.init ins).length = (e.delivered e.init ins).length + s.pay.length ∧
+    s.par.length = (s.pay.filter (fun x => x.2)).length ∧
+    s.pay.length ≤ pd ∧ s.par.length ≤ qd := by
+  intro e s
+  have h := rel_run_init e (fun s a d => pfRel s a d ∧ pfBound pd qd s)
+    ⟨⟨[], by simp [e, packetFifo], by simp [e, packetFifo, paramsOf], fun ext => by simp⟩,
+      by simp [pfBound, e, packetFifo]⟩
+    (fun s a d i h => ⟨packetFifo_step pd qd s a d i h.1, packetFifo_bound_step pd qd s i h.2⟩) ins
+  obtain ⟨⟨a2, hpay, hpar, hext⟩, hb1, hb2⟩ := h
+  have h0 := hext []
+  simp only [List.append_nil] at h0
+  refine ⟨⟨_, h0.symm⟩, ?_, ?_, hb1, hb2⟩
+  · have := congrArg List.length h0
+    simp only [List.length_append, annT_length] at this
+    show _ = _ + s.pay.length
+    rw [show s.pay = a2.map payOf from hpay]
+    simpa using this
+  · show s.par.length = (s.pay.filter _).length
+    rw [show s.pay = a2.map payOf from hpay, show s.par = paramsOf a2 from hpar]
+    exact paramsOf_length a2
+
+/-- `source.valid` in any reachable state means that the payload FIFO holds a last beat (a complete packet). -/
+theorem packetfifo_valid_complete (pd qd : Nat) (ins : List (In PBeat)) (i : In PBeat) :
+    let e := packetFifo pd qd
+    (e.out (e.runFrom e.init ins) i).valid = true →
+      ∃ x ∈ (e.runFrom e.init ins).pay, x.2 = true := by
+  intro e hv
+  have h := (packetfifo_atomic pd qd ins).2.2.1
+  have hne : (e.runFrom e.init ins).par ≠ [] := by
+    simpa [e, Elem.out, packetFifo] using hv
+  have : 0 < ((e.runFrom e.init ins).pay.filter (fun x => x.2)).length := by
+    rw [← h]; exact List.length_pos_iff.mpr hne
+  obtain ⟨x, hx⟩ := List.exists_mem_of_length_pos this
+  simp only [List.mem_filter] at hx
+  exact ⟨x, hx.1, hx.2⟩
+
+/-- **packetfifo_capacity** (documented store-and-forward limit, not a violation): once the payload FIFO is
+    full without holding a complete packet, nothing is accepted or delivered ever again, whatever the
+    environment does — a packet longer than `payload_depth` never completes. -/
+theorem packetfifo_capacity (pd qd : Nat) (s : PFState) (hfull : s.pay.length = pd) (hnone : s.par = [])
+    (ins : List (In PBeat)) :
+    let e := packetFifo pd qd
+    e.runFrom s ins = s ∧ e.accepted s ins = [] ∧ e.delivered s ins = [] := by
+  induction ins with
+  | nil => simp [Elem.accepted, Elem.delivered]
+  | cons i is ih =>
+    obtain ⟨h1, h2, h3⟩ := packetFifo_stuck_step pd qd s hfull hnone i
+    simp only [Elem.runFrom_cons, Elem.accepted, Elem.delivered, h1, h2, h3, List.nil_append]
+    exact ih
+
+/-- Non-vacuity / reachability of the capacity limit: two non-last beats fill `PacketFIFO(2)` for good. -/
+example :
+    let e := packetFifo 2 3
+    let b : Tok PBeat := ⟨⟨7, 1⟩, false, false⟩
+    let s := e.runFrom e.init [⟨true, b, true⟩, ⟨true, b, true⟩]
+    s.pay.length = 2 ∧ s.par = [] := by decide
+
+/-- Non-vacuity of `packetfifo_atomic`: packets (1,2 | param 9) and (3 | param 5) through `PacketFIFO(2)` with a
+    consumer that stalls while the payload FIFO is full exactly at a last beat (the witness of the fixed finding
+    C16-packetfifo-param-dup): every beat comes out once, with the param of its own packet's last beat. -/
+example :
+    let e := packetFifo 2 3
+    let t (d p : Nat) (l : Bool) : Tok PBeat := ⟨⟨d, p⟩, false, l⟩
+    let ins : List (In PBeat) :=
+      [⟨true, t 1 0 false, false⟩, ⟨true, t 2 9 true, false⟩, ⟨true, t 3 5 true, false⟩,
+       ⟨true, t 3 5 true, false⟩, ⟨true, t 3 5 true, true⟩, ⟨true, t 3 5 true, true⟩,
+       ⟨false, t 0 0 false, true⟩, ⟨false, t 0 0 false, true⟩]
+    e.delivered e.init ins = [t 1 9 false, t 2 9 true, t 3 5 true] := by decide
+
+/-! ## 3. Arbiter and Dispatcher -/
+
+/-- **arbiter_atomic**: for `n ≥ 2` masters and every input sequence, the beats handed to the slave (each tagged
+    with the master it comes from) never interleave packets: once a master's non-last beat has been
+    transferred, every beat up to and including its last beat comes from the same master (the grant is frozen
+    while `ongoing`), also when that master pauses `valid` in the middle of the packet and other masters
+    request. -/
+theorem arbiter_atomic (n : Nat) (hn : 2 ≤ n) (ins : List ArbIn) :
+    atomicFrom none (arbLog n (arbiter n).init ins) :=
+  arbiter_atomic_from n hn ins _ none ⟨by simp [arbiter]; omega, by simp⟩
+
+/-- No loss, duplication or reordering per master: what master `k` got accepted is exactly the slave's stream
+    restricted to `k`'s beats (the beats themselves are forwarded unchanged by construction of `arbXfer`). -/
+theorem arbiter_lossless (n : Nat) (hn : 2 ≤ n) (k : Nat) (hk : k < n) (ins : List ArbIn) :
+    arbAccepted n k (arbiter n).init ins =
+      ((arbLog n (arbiter n).init ins).filter (fun x => x.1 == k)).map (fun x => x.2) :=
+  arbiter_accepted_eq n hn k hk ins _ (by simp [arbiter]; omega)
+
+/-- Non-vacuity: master 0 sends (1, pause, 2 last) while master 1 keeps requesting with a one-beat packet:
+    the slave sees 1, 2 from master 0, then master 1's beat. -/
+example :
+    let b (v : Bool) (d : Nat) (l : Bool) : Beat := ⟨v, d, l⟩
+    arbLog 2 (arbiter 2).init
+      [⟨[b true 1 false, b true 7 true], true⟩, ⟨[b false 0 true, b true 7 true], true⟩,
+       ⟨[b false 0 false, b true 7 true], true⟩, ⟨[b true 2 true, b true 7 true], true⟩,
+       ⟨[b false 0 false, b true 7 true], true⟩]
+      = [(0, b true 1 false), (0, b true 2 true), (1, b true 7 true)] := by decide
+
+/-- **dispatcher_atomic**: for every input sequence, the destination of a packet is the slave addressed by the
+    `sel` input in the cycle in which its first beat is transferred (no slave if `sel` addresses none: the
+    packet is drained), and every further beat up to `last` goes to that same destination whatever `sel` does
+    in the meantime (the Dispatcher latches `sel` while `status.first`). -/
+theorem dispatcher_atomic (m : Nat) (oneHot : Bool) (ins : List DispIn) :
+    routedFrom m oneHot none (dispLog m oneHot (dispatcher m oneHot).init ins) :=
+  dispatcher_atomic_from m oneHot ins _ none (by simp [dispInv, dispatcher])
+
+/-- Non-vacuity: a two-beat packet started towards slave 1 stays there although `sel` flips to 0 before the
+    second beat; the next packet (sel = 5 addresses nobody) is drained. -/
+example :
+    let b (d : Nat) (l : Bool) : Beat := ⟨true, d, l⟩
+    dispLog 2 false (dispatcher 2 false).init
+      [⟨b 1 false, 1, [true, true]⟩, ⟨b 2 true, 0, [false, true]⟩, ⟨b 3 true, 5, [false, false]⟩]
+      = [(some 1, 1, b 1 false), (some 1, 0, b 2 true), (none, 5, b 3 true)] := by decide
+
 end Litex.C16
